@@ -1396,6 +1396,10 @@ class ServiceAnnouncer:
         self.started = True
 
     def stop(self):
+        if not self.started:
+            # already stopped (e.g. connection_lost() after stop()): the instances have no
+            # running task, stopping them again would raise
+            return
         for instance in self.announcing_services:
             instance.stop()
         self.started = False
